@@ -244,4 +244,33 @@ theorem fromNode_eq_viewOf (v : JVal) (hw : wf v = true) : fromNode v = some (vi
   | arr xs => simp [fromNode, viewOf, he]
   | obj ms => simp [fromNode, viewOf, he]
 
+/-! ## elements of a well-formed document are well-formed and no longer than the document -/
+
+theorem wfList_getElem (xs : List JVal) (i : Nat) (c : JVal) (hw : wfList xs = true) (h : xs[i]? = some c) :
+    wf c = true := by
+  induction xs generalizing i with
+  | nil => simp at h
+  | cons x xs ih =>
+    simp only [wfList, Bool.and_eq_true] at hw
+    cases i with
+    | zero => simp at h; subst h; exact hw.1
+    | succ i => simp at h; exact ih i hw.2 h
+
+theorem encList_getElem (xs : List JVal) (i : Nat) (c : JVal) (body : Bytes) (he : encList xs = some body)
+    (h : xs[i]? = some c) : ∃ a, enc c = some a ∧ a.length ≤ body.length := by
+  induction xs generalizing i body with
+  | nil => simp at h
+  | cons x xs ih =>
+    unfold encList at he
+    split at he
+    · rename_i a b ha hb
+      simp only [Option.some.injEq] at he; subst he
+      cases i with
+      | zero => simp at h; subst h; exact ⟨a, ha, by simp⟩
+      | succ i =>
+        simp at h
+        obtain ⟨a', ha', hl⟩ := ih i b hb h
+        exact ⟨a', ha', by simp; omega⟩
+    · simp at he
+
 end IwModel.Binn
